@@ -82,7 +82,19 @@ def mesh1Num : P String := do
     out := out ++ wRes Wire.wr (Mesh1.trapezium m q) ++ " "
   let text := Fmt.output m prec
   let m2 := Fmt.read (Mesh1.new (#[0.0] : Array Float) nvars) text
-  pure (out ++ dump1 m2)
+  out := out ++ dump1 m2
+  -- the same text read into a larger receiver that already holds data
+  let nn := nodes.size
+  let r0 : Mesh1 Float Float := Mesh1.new ((Array.range (nn + 2)).map (fun i => Float.ofNat i)) nvars
+  let r1 : Mesh1 Float Float := { r0 with vars := Array.replicate (nn + 2) (Array.replicate nvars 7.0) }
+  let mut m3 := Fmt.read r1 text
+  out := out ++ " | " ++ dump1 m3
+  for d in [0, 1] do
+    out := out ++ s!" get{d} " ++ wRes wArr (Mesh1.getNodesVars m3 (nn + d))
+    match Mesh1.setNodesVars m3 (nn + d) (Array.replicate nvars 1.0) with
+    | .ok m' => m3 := m'; out := out ++ s!" set{d} ok"
+    | .error e => out := out ++ s!" set{d} !{e}"
+  pure out
 
 def mesh2Num : P String := do
   let xn : Array Float ← pArr
